@@ -74,7 +74,7 @@ SPEC_KIND = {"v": "v", "c": "c", "t": "t", "p": "p", "d": "c", "f": "c"}
 
 
 class SimRun:
-    def __init__(self, plan):
+    def __init__(self, plan, copy=False):
         self.plan, self.n = plan, len(plan)
         self.nodes, self.vars, self.dist_of_var, self.weak_vars = {}, {}, {}, {}
         self.draw_log = []
@@ -113,7 +113,12 @@ class SimRun:
                 self.dist_of_var[vi] = i
         gb = lsl.GraphBuilder(to_float32=False)
         gb.add(*self.vars.values(), *self.weak_vars.values(), *self.nodes.values())
-        self.model = gb.build_model()
+        self.model = gb.build_model(copy=copy)
+        if copy:
+            # the model holds copies: the driver's handles are re-bound to them by name
+            self.nodes = {i: self.model.nodes[nd.name] for i, nd in self.nodes.items()}
+            self.vars = {i: self.model.vars[v.name] for i, v in self.vars.items()}
+            self.weak_vars = {i: self.model.vars[v.name] for i, v in self.weak_vars.items()}
         self.slots = []
 
     def _fn(self, i):
@@ -254,8 +259,10 @@ def gen_ops(rng, plan, nops):
 
 def random_trace(rng):
     plan = gen_plan(rng)
-    run = SimRun(plan)
+    copy = rng.random() < 0.25        # the model is built with copy=True (it holds copies of the nodes)
+    run = SimRun(plan, copy=copy)
     hdr = run.header()
+    hdr["copy"] = copy
     ops = gen_ops(rng, plan, rng.randint(3, 10))
     # determinism in the seed: repeat one simulate with the same seed on the same pre-state
     hdr["ops"] = ops
@@ -267,9 +274,10 @@ def replay_trace(hdr):
     for p in plan:
         if "shape" in p:
             p["shape"] = tuple(p["shape"])
-    run = SimRun(plan)
+    run = SimRun(plan, copy=bool(hdr.get("copy")))
     h = run.header()
     h["ops"] = hdr["ops"]
+    h["copy"] = bool(hdr.get("copy"))
     return {"hdr": h, "ev": [run.op(o) for o in hdr["ops"]]}
 
 
